@@ -58,11 +58,11 @@ from prompt_toolkit.patch_stdout import StdoutProxy
 ID = "C20"
 DRIVER = "drv_c20"
 PROPS = ["Ptk.Props.C20", "Ptk.Props.C20Task", "Ptk.Props.C20Term", "Ptk.Props.C20Chain", "Ptk.Props.C20ChainLemmas",
-         "Ptk.Props.C20Lock"]
+         "Ptk.Props.C20Lock", "Ptk.Props.C20Nest", "Ptk.Props.C20Patch"]
 SERIAL = False
 ANCHORS = ["src/prompt_toolkit/patch_stdout.py", "src/prompt_toolkit/application/run_in_terminal.py",
            "src/prompt_toolkit/application/application.py", "src/prompt_toolkit/application/current.py"]
-LEVEL_TEXT = ("Lean 4 theorems over three executable transition-system models with atomic steps at lock / event-loop "
+LEVEL_TEXT = ("Lean 4 theorems over five executable transition-system models with atomic steps at lock / event-loop "
               "granularity, for ANY number of threads and ANY interleaving (induction over arbitrary step lists): "
               "(a) StdoutProxy (write/flush under the RLock, line buffer, flush queue, the flush thread's sections, "
               "hand-off to the application loop; the loop callback in which run_in_terminal makes its task and the task's "
@@ -86,9 +86,19 @@ LEVEL_TEXT = ("Lean 4 theorems over three executable transition-system models wi
               "(c) write/flush split into their shared-state steps with the lock as a model variable: lock_mutex, "
               "lock_stream_invariant, lock_exactly_once, lock_per_thread_order, call_refines_write/flush (a whole call = the "
               "atomic step of model (a)), and a witness that the same code without "
-              "the lock loses text. Three schedule windows in "
+              "the lock loses text; "
+              "(d) the AppSession's current-application cell with NESTED applications (set_app as a stack: enter saves the "
+              "previous application, exit restores it; nested applications run inside open in_terminal sections, to any "
+              "depth): cell_is_innermost, nested_finish_restores_outer, text_never_on_prompt_nested (all schedules), "
+              "nested_order_partial, and cell_not_restored_witness (`session.app = None` on exit puts text on the outer "
+              "prompt: seeded C20-i); "
+              "(e) the patch_stdout() context manager (sys.stdout binding, restore-then-close teardown, writers printing "
+              "through whatever sys.stdout is, the flush thread held inside Output.flush): "
+              "patch_stdout_routes_every_write, patch_stdout_delivers (every write call made during or after the "
+              "with-block reaches the terminal or the restored stream, once, in call order), and "
+              "swapped_teardown_loses_text_witness (close before restore: seeded C20-j). Four schedule windows in "
               "which the property is FALSE of the current code are refuted on concrete schedules in Lean and replayed on the "
-              "real code (known findings K1-K3). Tied to /repo on every run by a differential correspondence (real "
+              "real code (known findings K1-K4). Tied to /repo on every run by a differential correspondence (real "
               "StdoutProxy, real threads and a real Application in an asyncio loop thread, driven step by step under "
               "enforced schedules - incl. the first step of run_in_terminal's task and the return of run_async held back "
               "by the harness, and the same schedules produced by the loop's own FIFO order; free-running soak) and the "
@@ -114,24 +124,31 @@ RULE = ("proxy: every op sequence up to the tier's length over {write a / b\\n /
         "`with self._lock:` (entry of _write/_flush and before they return), incl. calls made while the lock is held "
         "(must block until the holder leaves); soak: free-running writer threads on an unmodified StdoutProxy (no "
         "application / application throughout / application stopped and restarted on a new loop between phases), also "
-        "through patch_stdout() + sys.stdout. "
+        "through patch_stdout() + sys.stdout; nest: every op sequence up to the tier's length over {start application "
+        "(nested when a section is open), stop, open / close an in_terminal section, write+flush+settle} after 4 "
+        "prefixes (running application; nested application inside a section; text waiting for a section; nested "
+        "application finished inside a section) + random with deeper nesting; patch: every op sequence up to the "
+        "tier's length over {write a\\n / b / c\\nd from 2 threads through sys.stdout, sys.stdout.flush(), let one held "
+        "Output.flush through, main thread leaves `with patch_stdout():`} + random (3 threads, raw on/off). "
         "non-trivial = a proxy case with a non-empty write and at least one flush-thread step, a chain case with a "
         "section, any soak case")
 EXHAUSTIVE = True
 EXHAUSTIVE_SCOPE = {
     "quick": "proxy without app: all sequences len<=3 over 7 ops; with app: 9 prefixes x all sequences len<=2 over 13 ops; "
              "hand-off vs shutdown: all sequences len<=3 over 9 ops after two accepted batches; "
-             "chain: all sequences len<=3 over 9 ops",
+             "chain: all sequences len<=3 over 9 ops; nest: 4 prefixes x all sequences len<=3 over 5 ops; "
+             "patch: all sequences len<=4 over 6 ops",
     "thorough": "proxy without app: all sequences len<=5 over 7 ops; with app: 9 prefixes x all sequences len<=3 over 13 ops; "
-                "hand-off vs shutdown: all sequences len<=4 over 9 ops; chain: all sequences len<=4 over 9 ops",
+                "hand-off vs shutdown: all sequences len<=4 over 9 ops; chain: all sequences len<=4 over 9 ops; "
+                "nest: 4 prefixes x all sequences len<=5 over 5 ops; patch: all sequences len<=5 over 6 ops",
 }
 TRUSTED = ["harness/c20.py compares, after every scheduled step, the terminal events (erase / render / render-done / "
            "enable_autowrap+write+flush) received by a recording Vt100_Output and Renderer, _buffer, the queue items, the "
            "flush thread's position and locals, accepted-but-not-run callbacks, made-but-not-started run_in_terminal "
            "tasks, app / exit-requested / winding-down / loop state; at the end the output text "
            "and (without application) the exact StringIO content",
-           "Ptk/Model/C20.lean, C20Chain.lean, C20Lock.lean are hand translations of patch_stdout.py / run_in_terminal.py / the parts of "
-           "application.py they use (correspondence-checked; the functions are listed in MODELLED and hash-pinned)",
+           "Ptk/Model/C20.lean, C20Chain.lean, C20Lock.lean, C20Nest.lean, C20Patch.lean are hand translations of patch_stdout.py / "
+           "run_in_terminal.py / current.py (set_app) / the parts of application.py they use (correspondence-checked; the functions are listed in MODELLED and hash-pinned)",
            "harness/gen_c20.py probes Vt100_Output.enable_autowrap / write / write_raw and StdoutProxy._write of the current "
            "tree (no threads) and prints what it sees into Ptk/Gen/C20.lean",
            "the schedule gates (StdoutProxy subclass pausing in _flush_queue.get / _get_app_loop / _write_and_flush; loop "
@@ -142,7 +159,12 @@ TRUSTED = ["harness/c20.py compares, after every scheduled step, the terminal ev
            "do not change what the code computes. The held-back schedules are cross-checked by runexit / exitrun, which "
            "use the loop's own FIFO order only. The flush queue's put() delays an item only when a writer calls it "
            "WITHOUT holding the proxy lock (never with the code as it is): the item then arrives after the next complete "
-           "call of another thread, which is a legal preemption of a thread that is outside the lock"]
+           "call of another thread, which is a legal preemption of a thread that is outside the lock",
+           "nest cases: nested Applications are run by a coroutine that sits inside a real `async with in_terminal():` of "
+           "the outer one; patch cases: the real patch_stdout() is entered by a thread of its own, sys.stdout of the "
+           "worker process is replaced for the duration of the case (a StringIO stands for the original stream), the "
+           "session Output holds the flush thread inside flush() until told, and the proxy's flush queue is replaced "
+           "by a counting subclass right after entry (to see when the flush thread is idle)"]
 ASSUMPTIONS = ["threading.RLock admits one owner at a time (checked at run time: _is_owned inside _write/_flush, a second "
                "caller blocks while a thread is paused inside the block); queue.Queue is a linearizable FIFO; the "
                "get()+get_nowait() drain of the flush thread is atomic w.r.t. put()",
@@ -172,13 +194,22 @@ PARTIAL_SCOPE = ["preemption inside write/flush is modelled only down to the sha
                  "the open-section chain model; the proxy model assumes no other in_terminal section is open when its task runs",
                  "write() with a list / tuple / dict of strings is accepted silently and makes a later flush() raise (observed; "
                  "outside the property's alphabet)",
+                 "K4: text waiting for an open in_terminal section of the outer application is overtaken by text printed "
+                 "while a nested application runs in that section (`nestCalm`); the chain is per Application, not per session",
+                 "nest model: a write is one step (look-up, hand-off and task condensed: the hand-off windows are model (a)'s "
+                 "subject); nested applications only inside an open section of the innermost one; patch model: the "
+                 "look-up of sys.stdout and the call are one step (a thread that has loaded sys.stdout before the block is "
+                 "left and calls write() after close() writes to a closed proxy: outside the quantifier, "
+                 "closed_proxy_writes_nothing); sys.stderr is bound like sys.stdout; an unfinished last line nobody "
+                 "flushed stays in the line buffer when the block is left (close() does not flush it)",
                  "Windows outputs, isatty/fileno/encoding passthrough not modelled"]
 MODELLED = {
     "src/prompt_toolkit/patch_stdout.py": [
         "StdoutProxy.write", "StdoutProxy.flush", "StdoutProxy._write", "StdoutProxy._flush", "StdoutProxy.close",
         "StdoutProxy._start_write_thread", "StdoutProxy._write_thread", "StdoutProxy._get_app_loop",
         "StdoutProxy._write_and_flush", "StdoutProxy._write_and_flush.write_and_flush",
-        "StdoutProxy._write_and_flush.write_and_flush_in_loop"],
+        "StdoutProxy._write_and_flush.write_and_flush_in_loop", "patch_stdout"],
+    "src/prompt_toolkit/application/current.py": ["set_app", "get_app_or_none"],
     "src/prompt_toolkit/application/run_in_terminal.py": ["run_in_terminal", "run_in_terminal.run", "in_terminal"],
     "src/prompt_toolkit/application/application.py": [
         # run_async: the ExitStack (set_is_running, set_loop, set_app, create_future), `await f` and the `finally:` parts
@@ -1106,6 +1137,18 @@ def model_lines(case):
             else:
                 out.append(op[0])
         return out
+    if kind == "nest":
+        return ["ninit"] + [("nw %s" % enc_str(op[1])) if op[0] == "nw" else op[0] for op in case["ops"]]
+    if kind == "patch":
+        out = ["pinit %d" % case.get("raw", 0)]
+        for op in case["ops"]:
+            if op[0] == "pw":
+                out.append("pw %d %s" % (op[1], enc_str(op[2])))
+            elif op[0] == "pf":
+                out.append("pf %d" % op[1])
+            else:
+                out.append(op[0])
+        return out
     raise ValueError(kind)
 
 
@@ -1241,6 +1284,16 @@ def impl_lines(case):
         return rec["lines"]
     if kind == "lock":
         lines, rec = run_lock_case(case)
+        _cache.clear()
+        _cache[case_key(case)] = rec
+        return lines
+    if kind == "nest":
+        lines, rec = run_nest_case(case)
+        _cache.clear()
+        _cache[case_key(case)] = rec
+        return lines
+    if kind == "patch":
+        lines, rec = run_patch_case(case)
         _cache.clear()
         _cache[case_key(case)] = rec
         return lines
@@ -1882,7 +1935,600 @@ def oracle(case):
         return oracle_soak(case)
     if kind == "lock":
         return oracle_lock(case)
+    if kind == "nest":
+        return oracle_nest(case)
+    if kind == "patch":
+        return oracle_patch(case)
     raise ValueError(kind)
+
+
+
+# ------------------------------------------------------------------ nested applications (AppSession.app as a stack)
+SIG_NEST_ORDER = ("in_terminal | text that waits for an open section of the outer application is overtaken by text "
+                  "printed while a nested application runs")
+
+
+def wrap_renderer_n(rig, app, k):
+    """like wrap_renderer, the events carry the number of the application"""
+    r = app.renderer
+
+    def mk(name, orig):
+        def wrapped(*a, **kw):
+            tl = rig.tl
+            if getattr(tl, "depth", 0) == 0:
+                if name == "erase":
+                    rig.events.append(("E", k))
+                elif name == "render":
+                    rig.events.append(("X" if kw.get("is_done") else "D", k))
+            tl.depth = getattr(tl, "depth", 0) + 1
+            try:
+                return orig(*a, **kw)
+            finally:
+                tl.depth -= 1
+        return wrapped
+
+    for name in ("erase", "render", "reset"):
+        setattr(r, name, mk(name, getattr(r, name)))
+
+
+class NestRig(Rig):
+    """A real outer Application, `async with in_terminal():` sections that stay open, nested Applications run
+    inside them (to any depth), and writes through the real (gated) StdoutProxy in between."""
+
+    def __init__(self, session="default"):
+        self.frames = []        # running applications, outermost first: dict(app, k, sec)
+        self.napps = 0
+        super().__init__(raw=False, session=session, gated=True)
+        self.new_loop()
+
+    def _new_app(self):
+        if self.inp_cm is None:
+            self.inp_cm = create_pipe_input()
+            self.inp = self.inp_cm.__enter__()
+        k = self.napps
+        self.napps += 1
+        app = Application(layout=Layout(Window(FormattedTextControl("%d>" % k))), input=self.inp, output=self.out)
+        wrap_renderer_n(self, app, k)
+        return app, k
+
+    def top(self):
+        return self.frames[-1] if self.frames else None
+
+    def _wait_started(self, lt, app):
+        async def go():
+            for _ in range(200):
+                await asyncio.sleep(0)
+                if app._is_running:
+                    break
+            for _ in range(4):
+                await asyncio.sleep(0)
+        lt.call(go())
+        if not app._is_running:
+            raise RigTimeout("application did not start")
+
+    def nstart(self):
+        lt = self.cur_loop()
+        f = self.top()
+        if f is None:
+            app, k = self._new_app()
+            fr = {"app": app, "k": k, "sec": None}
+
+            async def go():
+                fr["task"] = asyncio.ensure_future(app.run_async())
+            lt.call(go())
+            self.app, self.app_task = app, fr["task"]      # for Rig.teardown
+            self._wait_started(lt, app)
+            self.frames.append(fr)
+        elif f["sec"] is not None:
+            app, k = self._new_app()
+            fr = {"app": app, "k": k, "sec": None, "ended": asyncio.Event()}
+            lt.loop.call_soon_threadsafe(f["sec"]["q"].put_nowait, ("run", app, fr))
+            self._wait_started(lt, app)
+            self.frames.append(fr)
+
+    def nstop(self):
+        f = self.top()
+        if f is None or f["sec"] is not None:
+            return
+        lt = self.cur_loop()
+        app = f["app"]
+
+        async def go():
+            app.exit()
+            if "task" in f:
+                await f["task"]
+            else:
+                await f["ended"].wait()
+            for _ in range(4):
+                await asyncio.sleep(0)
+        lt.call(go())
+        self.frames.pop()
+
+    def nenter(self):
+        f = self.top()
+        if f is None or f["sec"] is not None:
+            return
+        lt = self.cur_loop()
+        sec = {}
+
+        async def section():
+            async with in_terminal():
+                sec["body"].set()
+                while True:
+                    cmd = await sec["q"].get()
+                    if cmd[0] == "leave":
+                        break
+                    _, app, fr = cmd
+                    await app.run_async()          # the nested application
+                    fr["ended"].set()
+            sec["done"].set()
+
+        async def go():
+            sec["q"] = asyncio.Queue()
+            sec["body"] = asyncio.Event()
+            sec["done"] = asyncio.Event()
+            sec["task"] = asyncio.ensure_future(section())
+            await sec["body"].wait()
+        lt.call(go())
+        f["sec"] = sec
+
+    def nleave(self):
+        f = self.top()
+        if f is None or f["sec"] is None:
+            return
+        lt = self.cur_loop()
+        sec = f["sec"]
+
+        async def go():
+            sec["q"].put_nowait(("leave",))
+            await sec["done"].wait()
+            for _ in range(12):
+                await asyncio.sleep(0)
+        lt.call(go())
+        f["sec"] = None
+        lt.barrier()
+
+    def nwrite(self, text):
+        self.do_write(0, text)
+        self.do_flush(0)
+        self.settle()
+
+    def nest_state(self):
+        cur = self.session.app
+        cell = "N"
+        for fr in self.frames:
+            if fr["app"] is cur:
+                cell = str(fr["k"])
+        if cur is not None and cell == "N":
+            cell = "?"
+        st = ",".join("%d%s" % (fr["k"], "s" if fr["app"]._running_in_terminal else "") for fr in self.frames
+                      if fr["app"]._is_running)
+        return "cell=%s stack=%s" % (cell, st)
+
+    def teardown(self):
+        errs = []
+        try:
+            for _ in range(2 * len(self.frames) + 2):
+                if not self.frames:
+                    break
+                if self.top()["sec"] is not None:
+                    self.nleave()
+                else:
+                    self.nstop()
+        except BaseException as e:
+            errs.append(repr(e))
+        return errs + super().teardown()
+
+
+def canon_nest(evs):
+    out = []
+    i = 0
+    while i < len(evs):
+        e = evs[i]
+        if e[0] == "A" and i + 2 < len(evs) and evs[i + 1][0] == "W" and evs[i + 2][0] == "F":
+            out.append("O%d:%s" % (evs[i + 1][1], enc_str(evs[i + 1][2])))
+            i += 3
+        elif e[0] in ("E", "D", "X"):
+            out.append("%s%d" % (e[0], e[1]))
+            i += 1
+        else:
+            out.append("?" + e[0])
+            i += 1
+    return out
+
+
+@retry_on_timeout
+def run_nest_case(case):
+    rig = NestRig(session=case.get("session", "default"))
+    lines = []
+    rec = {"errors": [], "timeline": [], "notes": rig.notes}
+    try:
+        rig.take_events()
+        lines.append(" | " + rig.nest_state())
+        for op in case["ops"]:
+            k = op[0]
+            if k == "nstart":
+                rig.nstart()
+            elif k == "nstop":
+                rig.nstop()
+            elif k == "nenter":
+                rig.nenter()
+            elif k == "nleave":
+                rig.nleave()
+            elif k == "nw":
+                rig.nwrite(op[1])
+            else:
+                raise ValueError(op)
+            evs = rig.take_events()
+            if k in ("nstart", "nstop"):
+                evs = [e for e in evs if e[0] in ("E", "D", "X")]
+            rec["timeline"] += evs
+            lines.append(" ".join(canon_nest(evs)) + " | " + rig.nest_state())
+    except RigTimeout as e:
+        rec["errors"].append("timeout: loop/rig: " + str(e))      # retried once (retry_on_timeout)
+        lines.append("timeout:" + str(e))
+    finally:
+        rec["errors"] += rig.teardown()
+        rec["timeline_end"] = list(rig.events[rig.ev_pos:])
+    if rec["errors"]:
+        lines.append("errors:" + ";".join(rec["errors"])[:300])
+    return lines, rec
+
+
+def oracle_nest(case):
+    """text is never written while a prompt is on the screen; every text appears at most once and, once every
+    section is closed again (teardown), exactly once; order of the texts = order of the writes"""
+    key = case_key(case)
+    rec = _cache.pop(key) if key in _cache else run_nest_case(case)[1]
+    v = []
+    if rec["errors"]:
+        v.append({"signature": SIG_RIG, "msg": "; ".join(rec["errors"])[:400]})
+    tl = rec["timeline"] + rec.get("timeline_end", [])
+    visible = None
+    texts = []
+    i = 0
+    while i < len(tl):
+        e = tl[i]
+        if e[0] == "D":
+            visible = e[1]
+        elif e[0] in ("E", "X"):
+            visible = None
+        elif e[0] == "A" and i + 2 < len(tl) and tl[i + 1][0] == "W" and tl[i + 2][0] == "F":
+            texts.append(tl[i + 1][2])
+            if visible is not None:
+                v.append({"signature": SIG_BRACKET, "msg": "text %r written while the prompt of application %d is on the "
+                          "screen (thread %s): %r" % (tl[i + 1][2], visible, tl[i + 1][3], canon_nest(tl)[:40])})
+            i += 2
+        i += 1
+    writes = [op[1] for op in case["ops"] if op[0] == "nw"]
+    out_text, want = "".join(texts), "".join(writes)
+    if out_text != want:
+        if sorted(texts) == sorted(writes):
+            v.append({"signature": SIG_NEST_ORDER, "msg": "texts %r, writes %r" % (texts, writes)})
+        else:
+            v.append({"signature": SIG_STREAM + (" | lost" if len(out_text) < len(want) else " | duplicated or invented"),
+                      "msg": "texts %r, writes %r" % (texts, writes)})
+    seen, out = set(), []
+    for x in v:
+        if x["signature"] not in seen:
+            seen.add(x["signature"])
+            out.append(x)
+    return out
+
+
+# ------------------------------------------------------------------ the patch_stdout() context manager
+SIG_PATCH = ("patch_stdout | text written through sys.stdout while the with-block is being left is neither on the "
+             "terminal nor in the restored stream")
+_STDOUT_LOCK = threading.Lock()
+
+
+class GateOutput(Vt100_Output):
+    """The session's Output: records what it is asked to write; `flush()` of a non-empty buffer waits for the
+    schedule (`pemit`): the flush thread is held there, like by a slow terminal."""
+
+    def __init__(self, rig):
+        self.rig = rig
+        self.sio = io.StringIO()
+        super().__init__(self.sio, lambda: Size(rows=24, columns=80), term="xterm")
+        self.texts = []          # (raw, text) written since the last flush
+        self.emitted = []        # (raw, text) flushed
+
+    def write(self, data):
+        self.texts.append((0, data))
+        super().write(data)
+
+    def write_raw(self, data):
+        if threading.current_thread().name == "patch-stdout-flush-thread" and data != "\x1b[?7h":
+            self.texts.append((1, data))
+        super().write_raw(data)
+
+    def flush(self):
+        if self.texts and threading.current_thread().name == "patch-stdout-flush-thread":
+            rig = self.rig
+            rig.held.set()
+            if not rig.permit.acquire(timeout=TIMEOUT * 6):
+                raise RigTimeout("held flush")
+            rig.held.clear()
+            self.emitted += self.texts
+            self.texts = []
+        super().flush()
+
+
+class CountQueue(queue.Queue):
+    """the flush queue, instrumented: `idle()` = the flush thread waits in get() and has taken everything that
+    was put"""
+
+    def __init__(self):
+        super().__init__()
+        self.lk = threading.Lock()
+        self.puts = 0
+        self.takes = 0
+        self.waiting = False
+        self.done_put = False
+
+    def put(self, item, block=True, timeout=None):
+        with self.lk:
+            self.puts += 1
+            if isinstance(item, PS._Done):
+                self.done_put = True
+        return super().put(item, block, timeout)
+
+    def get(self, block=True, timeout=None):
+        if block:
+            with self.lk:
+                self.waiting = True
+        try:
+            item = super().get(block, timeout)
+        except queue.Empty:
+            raise
+        with self.lk:
+            self.takes += 1
+            self.waiting = False
+        return item
+
+    def idle(self):
+        with self.lk:
+            return self.waiting and self.puts == self.takes
+
+
+class PatchRig:
+    """`with patch_stdout(raw):` run by a thread of its own (the "main" thread of the program), writer threads that
+    print through whatever `sys.stdout` is at the moment, the session Output holding the flush thread inside
+    `flush()`.  `sys.stdout` of the process is replaced for the duration of the case (a StringIO stands for the
+    original stream)."""
+
+    def __init__(self, raw):
+        self.held = threading.Event()
+        self.permit = threading.Semaphore(0)
+        self.notes = []
+        self.out = GateOutput(self)
+        self.orig = io.StringIO()
+        self.leave = threading.Event()
+        self.entered = threading.Event()
+        self.main_done = threading.Event()
+        self.main_exc = None
+        self.proxy = None
+        self.writers = {}
+        self.nseen = 0
+        self.exit_requested = False
+        _STDOUT_LOCK.acquire()
+        self.saved = (sys.stdout, sys.stderr)
+        sys.stdout = self.orig
+        sys.stderr = self.orig
+        try:
+            def main():
+                try:
+                    with create_app_session(output=self.out):
+                        with PS.patch_stdout(raw=bool(raw)):
+                            self.proxy = sys.stdout
+                            self.entered.set()
+                            self.leave.wait(TIMEOUT * 12)
+                except BaseException as e:
+                    self.main_exc = e
+                finally:
+                    self.entered.set()
+                    self.main_done.set()
+            self.main = threading.Thread(target=main, name="pmain", daemon=True)
+            self.main.start()
+            if not self.entered.wait(TIMEOUT) or self.proxy is None:
+                raise RigTimeout("patch_stdout not entered")
+            # instrument the flush queue: the flush thread sits in the old queue's get(); an empty item makes it
+            # `continue` and come back to `self._flush_queue.get()` - the new queue
+            old = self.proxy._flush_queue
+            self.q = CountQueue()
+            self.proxy._flush_queue = self.q
+            old.put("")
+            self.wait_stable()
+        except BaseException:
+            self.teardown()
+            raise
+
+    def fl_thread(self):
+        return self.proxy._flush_thread
+
+    def _stable(self):
+        fl_dead = not self.fl_thread().is_alive()
+        fl_ok = self.held.is_set() or fl_dead or self.q.idle()
+        if not fl_ok:
+            return False
+        if not self.exit_requested or self.main_done.is_set():
+            return True
+        # the main thread is leaving: stable only when it waits in join() for a flush thread that is held
+        return self.q.done_put and self.held.is_set()
+
+    def wait_stable(self):
+        """until the flush thread is held inside Output.flush(), or waits in get() with nothing left, or has ended;
+        and, when the main thread is leaving the block, until it has returned or waits in join() for a held flush
+        thread.  The state has to be seen twice (a thread may be between two observed points)."""
+        t0 = time.monotonic()
+        while True:
+            if self._stable():
+                time.sleep(0.001)
+                if self._stable():
+                    return
+            if time.monotonic() - t0 > TIMEOUT:
+                raise RigTimeout("patch rig did not get stable")
+            time.sleep(0.0005)
+
+    def writer(self, t):
+        if t not in self.writers:
+            q = queue.Queue()
+            done = threading.Event()
+
+            def body():
+                while True:
+                    cmd = q.get()
+                    if cmd is None:
+                        return
+                    try:
+                        if cmd[0] == "w":
+                            sys.stdout.write(cmd[1])
+                        else:
+                            sys.stdout.flush()
+                    except BaseException as e:
+                        self.notes.append("writer-exception:" + type(e).__name__)
+                    finally:
+                        done.set()
+            th = threading.Thread(target=body, name="pwriter-%d" % t, daemon=True)
+            th.start()
+            self.writers[t] = (q, done, th)
+        return self.writers[t]
+
+    def call(self, t, cmd):
+        q, done, _ = self.writer(t)
+        done.clear()
+        q.put(cmd)
+        if not done.wait(TIMEOUT):
+            raise RigTimeout("writer blocked")
+        self.wait_stable()
+
+    def pemit(self):
+        """one held emission goes through"""
+        if self.held.is_set():
+            n = len(self.out.emitted)
+            self.permit.release()
+            t0 = time.monotonic()
+            while len(self.out.emitted) == n:
+                if time.monotonic() - t0 > TIMEOUT:
+                    raise RigTimeout("held flush not released")
+                time.sleep(0.0005)
+        self.wait_stable()
+
+    def pexit(self):
+        if self.exit_requested:
+            return
+        self.exit_requested = True
+        self.leave.set()
+        self.wait_stable()
+
+    def take_emitted(self):
+        evs = self.out.emitted[self.nseen:]
+        self.nseen += len(evs)
+        return evs
+
+    def state(self):
+        p = self.proxy
+        bound = 1 if sys.stdout is p else 0
+        pc = "inside" if not self.exit_requested else ("done" if self.main_done.is_set() else "joining")
+        items = list(self.q.queue)
+        qs = enc_list(items, lambda i: enc_str(i) if isinstance(i, str) else "DONE")
+        if not self.fl_thread().is_alive():
+            fl = "exited"
+        elif self.held.is_set():
+            fl = "held:" + enc_str("".join(t for _, t in self.out.texts))
+        else:
+            fl = "idle"
+        return "bound=%d pc=%s orig=%s buf=%s q=%s fl=%s" % (bound, pc, enc_str(self.orig.getvalue()),
+                                                               enc_str("".join(p._buffer)), qs, fl)
+
+    def teardown(self):
+        errs = []
+        try:
+            self.leave.set()
+            for _ in range(64):
+                self.permit.release()
+            if not self.main_done.wait(TIMEOUT):
+                errs.append("patch_stdout() did not return")
+            for (q, done, th) in self.writers.values():
+                q.put(None)
+            for (q, done, th) in self.writers.values():
+                th.join(TIMEOUT)
+            if self.main_exc is not None:
+                errs.append("main thread: " + repr(self.main_exc))
+        finally:
+            sys.stdout, sys.stderr = self.saved
+            _STDOUT_LOCK.release()
+        return errs
+
+
+@retry_on_timeout
+def run_patch_case(case):
+    rig = PatchRig(case.get("raw", 0))
+    lines = []
+    rec = {"errors": [], "notes": rig.notes}
+    try:
+        lines.append(" | " + rig.state())
+        for op in case["ops"]:
+            k = op[0]
+            if k == "pw":
+                rig.call(op[1], ("w", op[2]))
+            elif k == "pf":
+                rig.call(op[1], ("f",))
+            elif k == "pemit":
+                rig.pemit()
+            elif k == "pexit":
+                rig.pexit()
+            else:
+                raise ValueError(op)
+            evs = rig.take_emitted()
+            lines.append(" ".join("O%d:%s" % (r, enc_str(t)) for r, t in evs) + " | " + rig.state())
+        # epilogue for the oracle: the block is left, everything that is held goes through
+        rig.pexit()
+        for _ in range(len(case["ops"]) + 4):
+            if rig.main_done.is_set():
+                break
+            rig.pemit()
+        rec["term"] = "".join(t for _, t in rig.out.emitted)
+        rec["orig"] = rig.orig.getvalue()
+        rec["buffer"] = "".join(rig.proxy._buffer)
+        rec["queue_left"] = [i for i in rig.q.queue if isinstance(i, str) and i]
+        rec["done"] = rig.main_done.is_set()
+    except RigTimeout as e:
+        rec["errors"].append("timeout: loop/rig: " + str(e))      # retried once (retry_on_timeout)
+        lines.append("timeout:" + str(e))
+    finally:
+        rec["errors"] += rig.teardown()
+    if rec["errors"]:
+        lines.append("errors:" + ";".join(rec["errors"])[:300])
+    return lines, rec
+
+
+def oracle_patch(case):
+    """every write call made through sys.stdout - before, while or after the block is left - is on the terminal (or
+    still in the line buffer when nobody flushed) or in the restored stream: once, in call order"""
+    key = case_key(case)
+    rec = _cache.pop(key) if key in _cache else run_patch_case(case)[1]
+    v = []
+    if rec["errors"]:
+        v.append({"signature": SIG_RIG, "msg": "; ".join(rec["errors"])[:400]})
+    if "term" in rec:
+        writes = "".join(op[2] for op in case["ops"] if op[0] == "pw")
+        got = rec["term"] + rec["buffer"] + rec["orig"]
+        if not rec["done"]:
+            v.append({"signature": SIG_RIG, "msg": "patch_stdout() did not return"})
+        elif got != writes:
+            if rec["queue_left"]:
+                v.append({"signature": SIG_PATCH, "msg": "left in the flush queue behind the sentinel: %r; terminal %r + "
+                          "unflushed %r + restored stream %r, writes %r" % (rec["queue_left"], rec["term"], rec["buffer"],
+                                                                            rec["orig"], writes)})
+            else:
+                v.append({"signature": SIG_STREAM + (" | reordered" if sorted(got) == sorted(writes) else " | lost"
+                                                     if len(got) < len(writes) else " | duplicated or invented"),
+                          "msg": "terminal %r + unflushed %r + restored stream %r, writes %r" % (
+                              rec["term"], rec["buffer"], rec["orig"], writes)})
+    if any(n.startswith("writer-exception") for n in rec.get("notes", ())):
+        v.append({"signature": SIG_RIG, "msg": "a writer raised: %r" % rec["notes"]})
+    return v
 
 
 # ------------------------------------------------------------------ generators
@@ -2113,6 +2759,68 @@ def soak_case(rng, mode, via="proxy"):
             "cycles": rng.choice([1, 2, 3]), "via": via, "busy": rng.choice([0.01, 0.03, 0.05])}
 
 
+NEST_ALPHA = [["nstart"], ["nstop"], ["nenter"], ["nleave"], ["nw", "a\n"]]
+NEST_PREFIXES = [
+    [["nstart"]],
+    [["nstart"], ["nenter"], ["nstart"]],          # a nested application runs inside the open section of the outer one
+    [["nstart"], ["nenter"], ["nw", "w\n"]],       # text waits for the open section
+    [["nstart"], ["nenter"], ["nstart"], ["nstop"]],   # the nested application has finished, the section is still open
+]
+
+
+def exhaustive_nest(maxlen):
+    for pre in NEST_PREFIXES:
+        for n in range(0, maxlen + 1):
+            for seq in itertools.product(NEST_ALPHA, repeat=n):
+                yield {"kind": "nest", "session": "default", "ops": [list(o) for o in pre] + [list(o) for o in seq]}
+
+
+def random_nest(rng, nops):
+    ops = [["nstart"]] if rng.random() < 0.8 else []
+    k = 0
+    for _ in range(nops):
+        r = rng.random()
+        if r < 0.3:
+            k += 1
+            ops.append(["nw", rng.choice(["t%d\n" % k, "t%d" % k, "u%d\nv%d\n" % (k, k), "e\x1b%d\n" % k])])
+        elif r < 0.5:
+            ops.append(["nenter"])
+        elif r < 0.68:
+            ops.append(["nstart"])
+        elif r < 0.84:
+            ops.append(["nstop"])
+        else:
+            ops.append(["nleave"])
+    return {"kind": "nest", "session": rng.choice(["default", "custom"]), "ops": ops}
+
+
+PATCH_ALPHA = [["pw", 0, "a\n"], ["pw", 1, "b"], ["pw", 1, "c\nd"], ["pf", 0], ["pemit"], ["pexit"]]
+
+
+def exhaustive_patch(maxlen):
+    for n in range(0, maxlen + 1):
+        for seq in itertools.product(PATCH_ALPHA, repeat=n):
+            yield {"kind": "patch", "raw": 0, "ops": [list(o) for o in seq]}
+
+
+def random_patch(rng, nops):
+    nthreads = rng.choice([1, 2, 3])
+    ops = []
+    left = False
+    for i in range(nops):
+        r = rng.random()
+        if r < 0.5:
+            ops.append(["pw", rng.randrange(nthreads), rng.choice(DATA_RAND)])
+        elif r < 0.6:
+            ops.append(["pf", rng.randrange(nthreads)])
+        elif r < 0.85:
+            ops.append(["pemit"])
+        elif not left:
+            left = True
+            ops.append(["pexit"])
+    return {"kind": "patch", "raw": rng.choice([0, 0, 1]), "ops": ops}
+
+
 def cases(tier, rng):
     quick = tier == "quick"
     yield from exhaustive_noapp(3 if quick else 5)
@@ -2127,6 +2835,12 @@ def cases(tier, rng):
         yield random_chain(rng, rng.choice([4, 8, 16]))
     for i in range(8 if quick else 80):
         yield lock_case(rng, rng.choice([6, 12, 24]), rng.choice([0, 1, 1, 2]))
+    yield from exhaustive_nest(3 if quick else 5)
+    yield from exhaustive_patch(4 if quick else 5)
+    for _ in range(60 if quick else 1500):
+        yield random_nest(rng, rng.choice([6, 10, 16]))
+    for _ in range(100 if quick else 2000):
+        yield random_patch(rng, rng.choice([6, 12, 24]))
     for i in range(3 if quick else 60):
         yield soak_case(rng, "exitrace")
     if not quick:
@@ -2149,6 +2863,10 @@ def nontrivial(case):
         return any(op[0] == "center" for op in case["ops"])
     if k == "lock":
         return any(op[0] == "lcall" and op[2][0] == "w" and op[2][1] for op in case["ops"])
+    if k == "nest":
+        return any(op[0] == "nw" for op in case["ops"]) and any(op[0] == "nstart" for op in case["ops"])
+    if k == "patch":
+        return any(op[0] == "pw" and op[2] for op in case["ops"])
     return True
 
 
